@@ -327,6 +327,9 @@ func (d *Driver) run(replay string) int {
 				continue
 			}
 			if strings.Join(o.obs, "\n") != strings.Join(w.w.Obs, "\n") {
+				if data, err := os.ReadFile(w.file); err == nil {
+					os.WriteFile(filepath.Join(replayDir, "mismatch-"+filepath.Base(w.file)), data, 0o644)
+				}
 				traceMismatch = append(traceMismatch, fmt.Sprintf("%s: Observe trace differs for witness [%s]\n   engine: %v\n   native: %v", w.h.Name, w.w.Tag, w.w.Obs, o.obs))
 				continue
 			}
@@ -651,16 +654,22 @@ func (d *Driver) applyNativeHooks(pkgDir string, repl map[string]string) error {
 	if err := json.Unmarshal(data, &hf); err != nil {
 		return err
 	}
-	for i, h := range hf.Hooks {
+	content := map[string][]string{}
+	var order []string
+	for _, h := range hf.Hooks {
 		full := filepath.Join(d.repo, h.File)
 		if filepath.Dir(full) != pkgDir {
 			continue
 		}
-		src, err := os.ReadFile(full)
-		if err != nil {
-			return err
+		lines, ok := content[full]
+		if !ok {
+			src, err := os.ReadFile(full)
+			if err != nil {
+				return err
+			}
+			lines = strings.Split(string(src), "\n")
+			order = append(order, full)
 		}
-		lines := strings.Split(string(src), "\n")
 		found := false
 		var out []string
 		for _, l := range lines {
@@ -673,8 +682,11 @@ func (d *Driver) applyNativeHooks(pkgDir string, repl map[string]string) error {
 		if !found {
 			return fmt.Errorf("native hook: line %q not found in %s", h.AfterLine, h.File)
 		}
-		gen := filepath.Join(d.scratch, fmt.Sprintf("hooked-%d-%s", i, filepath.Base(h.File)))
-		os.WriteFile(gen, []byte(strings.Join(out, "\n")), 0o644)
+		content[full] = out
+	}
+	for i, full := range order {
+		gen := filepath.Join(d.scratch, fmt.Sprintf("hooked-%d-%s", i, filepath.Base(full)))
+		os.WriteFile(gen, []byte(strings.Join(content[full], "\n")), 0o644)
 		repl[full] = gen
 	}
 	return nil
